@@ -125,8 +125,17 @@ OccSlot(ts, p, i, need) ==    \* <<slot index, occurrence start>> or <<0, 0>>
     ELSE LET oc == Occ(ts[i].s, p, 1)
          IN IF Len(oc) >= need + 1 THEN <<i, oc[need + 1]>> ELSE OccSlot(ts, p, i + 1, need - Len(oc))
 
+(* a negative occurrence number: the LAST occurrence in the LAST text node that has one (_search_negative_position) *)
+LastOcc(ts, p) ==
+    LET cand == {i \in Slots(ts) : Occ(ts[i].s, p, 1) # <<>>}
+    IN IF cand = {} THEN <<0, 0>>
+       ELSE LET i == CHOOSE i \in cand : \A j \in cand : j <= i
+                oc == Occ(ts[i].s, p, 1)
+            IN <<i, oc[Len(oc)]>>
+OccAt(ts, p, nth) == IF nth < 0 THEN LastOcc(ts, p) ELSE OccSlot(ts, p, 1, nth)
+
 MarkAtOccurrence(ts, p, nth, before) ==
-    LET r == OccSlot(ts, p, 1, nth)
+    LET r == OccAt(ts, p, nth)
     IN IF r[1] = 0 THEN ts
        ELSE LET s == ts[r[1]].s
                 pos == IF before THEN r[2] - 1 ELSE r[2] + Len(p) - 1
@@ -135,7 +144,7 @@ MarkAtOccurrence(ts, p, nth, before) ==
 (* content = regex: a start mark before and an end mark after the nth occurrence - both or nothing. *)
 (* (the end mark first: it does not move the occurrence, which stays whole at the end of its text)  *)
 MarkContent(ts, p, nth) ==
-    IF OccSlot(ts, p, 1, nth)[1] = 0 THEN ts
+    IF OccAt(ts, p, nth)[1] = 0 THEN ts
     ELSE MarkAtOccurrence(MarkAtOccurrence(ts, p, nth, FALSE), p, nth, TRUE)
 
 MarkSlotPosition(ts, position) ==
@@ -143,7 +152,8 @@ MarkSlotPosition(ts, position) ==
     IN IF cand = {} THEN 0 ELSE CHOOSE i \in cand : \A j \in cand : i <= j
 MarkAtPosition(ts, position) ==
     LET i == MarkSlotPosition(ts, position)
-    IN IF i = 0 THEN ts
+    IN IF position < 0 THEN Append(ts, E("bm", 0))        \* a negative character position: appended at the very end
+       ELSE IF i = 0 THEN ts
        ELSE LET s == ts[i].s
                 pos == position - CharsBefore(ts, i)
             IN Splice(ts, i, <<T(SubSeq(s, 1, pos)), E("bm", 0), T(SubSeq(s, pos + 1, Len(s)))>>)
